@@ -116,7 +116,7 @@ type vlObs struct {
 	Ev  int       `json:"ev"`  // 0 after a schedule step, 1 after a mutating lock op, 2 at the instant a lock context is cancelled (state just before)
 	Now int64     `json:"now"` // ms of virtual time since the start of the schedule
 	F   [][]int64 `json:"f"`   // lock files: [owner, time(ms), exclusive]
-	P   [][]int64 `json:"p"`   // per process: [believes, ctxAlive, exclusive, robbed, stall(ms), clean-finished, faulted, newest own lock time, robbedAt(ms)]
+	P   [][]int64 `json:"p"`   // per process: [believes, ctxAlive, exclusive, robbed, stall(ms), clean-finished, faulted, newest own lock time, robbedAt(ms), newest own lock time among the files it did not remove itself]
 	R   [][]int64 `json:"r"`   // remote (scripted) holders: [time(ms), exclusive]
 }
 
@@ -147,6 +147,7 @@ type vlEnv struct {
 	lag      bool                 // listing delay
 	created  map[string]time.Time // lock file name -> (virtual) time it was saved
 	hidden   int                  // files hidden from listings by the delay
+	selfRm   map[string]bool      // lock files removed by their owner
 }
 
 var errVlInjected = fmt.Errorf("verif: injected lock backend fault")
@@ -216,6 +217,13 @@ func (b *vlBE) Remove(ctx context.Context, h backend.Handle) error {
 		return errVlInjected
 	}
 	err := b.Backend.Remove(ctx, h)
+	if err == nil {
+		b.e.mu.Lock()
+		if b.e.owner[h.Name] == b.p.idx {
+			b.e.selfRm[h.Name] = true
+		}
+		b.e.mu.Unlock()
+	}
 	if err == nil && b.p.free {
 		// removal by a third party: the owner was robbed of a lock file
 		b.e.mu.Lock()
@@ -419,7 +427,19 @@ func (e *vlEnv) observe(ev int, preCancel int) {
 		}
 		return a[1] < b[1]
 	})
+	kept := map[int]int64{}
+	for n, fi := range e.info {
+		if !e.selfRm[n] {
+			if t, ok := kept[fi.owner]; !ok || fi.t > t {
+				kept[fi.owner] = fi.t
+			}
+		}
+	}
 	for _, p := range e.procs {
+		kp, ok := kept[p.idx]
+		if !ok {
+			kp = -1
+		}
 		bel := p.state == "holding" && !p.unlockCalled && !p.dead
 		ctxAlive := p.wctx != nil && p.wctx.Err() == nil
 		if preCancel == p.idx {
@@ -431,7 +451,7 @@ func (e *vlEnv) observe(ev int, preCancel int) {
 		for _, w := range p.waiters {
 			stall += time.Since(w.at)
 		}
-		o.P = append(o.P, []int64{vlB(bel), vlB(ctxAlive), vlB(p.excl), vlB(p.robbed), int64(stall / time.Millisecond), vlB(clean), vlB(p.faulted), p.newest, p.robbedAt})
+		o.P = append(o.P, []int64{vlB(bel), vlB(ctxAlive), vlB(p.excl), vlB(p.robbed), int64(stall / time.Millisecond), vlB(clean), vlB(p.faulted), p.newest, p.robbedAt, kp})
 	}
 	// keep only the first and the last of a run of observations that differ in nothing but time
 	if n := len(e.obs); n >= 2 && ev == 0 && vlSame(e.obs[n-1], o) && vlSame(e.obs[n-2], o) && e.obs[n-1].Ev == 0 {
@@ -712,7 +732,7 @@ func vlRun(t *testing.T, base map[backend.Handle][]byte, s vlSched, probes bool)
 	rec = vlRec{ID: s.ID, Fam: s.Fam, N: s.N, Sched: vlSchedString(s), Out: []string{}, Logs: []string{}, Errs: []string{}, Trace: []string{}, Probe: []int64{0, 0}}
 	synctest.Test(t, func(t *testing.T) {
 		e := &vlEnv{t: t, store: kit.NewStoreFrom(base), byName: map[string]*vlProc{}, owner: map[string]int{}, info: map[string]*vlFileInfo{},
-			remote: [][]int64{}, t0: time.Now(), gateLd: true, budget: vlStallBudget, lag: s.Lag, created: map[string]time.Time{}}
+			remote: [][]int64{}, t0: time.Now(), gateLd: true, budget: vlStallBudget, lag: s.Lag, created: map[string]time.Time{}, selfRm: map[string]bool{}}
 		if s.Budget > 0 {
 			e.budget = time.Duration(s.Budget) * time.Second
 		}
